@@ -98,6 +98,27 @@ def routine(case):
   return _JIT[key]
 
 
+def pi_premise(case, derived, A):
+  """Premise PI of InvRoot_Trace for the eigh route (which hides its estimate): the library's own
+  power_iteration, called as the routine calls it, lands in [lambda_max (1 - 1e-4), lambda_max]."""
+  import jax
+  import jax.numpy as jnp
+  from precondition import distributed_shampoo as ds
+  key = ("pi", case["ps"] >= 0, case["n"])
+  if key not in _JIT:
+    hasps = key[1]
+    _JIT[key] = jax.jit(lambda M, ps: ds.power_iteration(
+        M, num_iters=100, error_tolerance=1e-6, padding_start=ps if hasps else None)[1])
+  m = derived["m"]
+  M = np.array(A)
+  if case["ps"] >= 0:
+    M[m:, :] = 0
+    M[:, m:] = 0
+  lam = float(_JIT[key](jnp.asarray(M), jnp.asarray(max(case["ps"], 0), jnp.int32)))
+  lmax = 10.0 ** case["c"]
+  return bool(lmax * (1 - 1e-4) <= lam <= lmax * (1 + 1e-9)), lam
+
+
 # ---------------------------------------------------------------------------------------
 # measured residual  max | X^p (A + d I) - I |  on the unpadded block, minimised over an
 # interval of d (convex in d: maximum of absolute values of affine functions)
@@ -229,11 +250,13 @@ def handle(job):
   ev.append({"a": "Report", "fc": fc, "fig": fig, "c05": c05, "retries": r_int})
   ev.append({"a": "Return", "finite": finite, "asym": dec(asym, up=True), "padnz": padnz, "xzero": xzero,
              "figzero": bool(f32 == 0)})
-  gate = {"a": "Gate", "accepted": accepted, "meas": {"abs": [], "rel_lam": [], "rel_floor": [], "nan": []}}
+  gate = {"a": "Gate", "accepted": accepted, "pi": True, "meas": {"abs": [], "rel_lam": [], "rel_floor": [], "nan": []}}
   if case["dt"] == "f64" and finite and m > 0:
     gate["meas"], raw = measure(case, derived, A, X, lam_rep)
     gate["meas"]["nan"] = []
     obs["meas_raw"] = raw
+    if case["method"] == "eigh" and case["rel"] and not derived["lamBelowFloor"]:
+      gate["pi"], obs["pi_lam"] = pi_premise(case, derived, A)
   ev.append(gate)
   return {"error": None, "events": ev, "obs": obs}
 
